@@ -396,7 +396,7 @@ impl Genesis {
         let bad_foreign = rng.pubkey();
         let failing_foreign = rng.pubkey();
         sim.exec.foreign.ok.insert(allowed_foreign);
-        sim.exec.foreign.ok.insert(marginfi::constants::TITAN_KEY);
+        sim.exec.foreign.failing.insert(marginfi::constants::TITAN_KEY);
         sim.exec.foreign.ok.insert(bad_foreign);
         sim.exec.foreign.failing.insert(failing_foreign);
 
